@@ -7,6 +7,7 @@ import (
 	"crypto"
 	"crypto/sha256"
 	"encoding/binary"
+	"io"
 	"unicode/utf16"
 
 	"github.com/sassoftware/relic/v8/lib/comdoc"
@@ -137,3 +138,72 @@ func VH_C05_MsiImprint() {
 // the same decisions registered under the other properties they belong to
 func VH_C08_MsiDigestIgnoresSignature() { VH_C05_MsiImprint() }
 func VH_C09_MsiTarDigestEqualsDirect()  { VH_C05_MsiImprint() }
+
+// H18.msi-insert / H08.msi-insert: InsertMSISignature on a real container
+// (through the real compound-file writer): afterwards the signature stream
+// holds exactly the PKCS#7 blob, the extended-signature stream exists exactly
+// when an extended digest was supplied (a stale one from an earlier signing
+// is removed), the payload streams keep their bytes, and the MSI imprint is
+// what it was before - for an unsigned container and for one signed before
+// with or without the extended stream.
+func VH_C08_MsiInsertSignature() {
+	vhMaxLen(8192)
+	vhLoopBound(1100)
+	var uid [16]byte
+	p := vhMsiStream{"P", append(vhBytes("stream-P", 3), make([]byte, 37)...)}
+	q := vhMsiStream{"Q", append(vhBytes("stream-Q", 2), make([]byte, 31)...)}
+	streams := []vhMsiStream{p, q}
+	prior := vhConcretize(vhInt("signed-before", 0, 2), 3) // 0 no, 1 plain, 2 with extended stream
+	if prior >= 1 {
+		streams = append(streams, vhMsiStream{msiDigitalSignature, make([]byte, 40)})
+	}
+	if prior == 2 {
+		streams = append(streams, vhMsiStream{msiDigitalSignatureEx, make([]byte, 32)})
+	}
+	path := vhFSPath("p.msi")
+	vhFSPut(path, vhMsiContainer(uid, streams))
+	before, err := comdoc.ReadPath(path)
+	vhAssert(err == nil, "container-opens")
+	if err != nil {
+		return
+	}
+	imprint0, _, err := DigestMSI(before, crypto.SHA256, false)
+	vhAssert(err == nil, "container-digests")
+	before.Close()
+	w, err := comdoc.WritePath(path)
+	vhAssert(err == nil, "container-opens-for-writing")
+	if err != nil {
+		return
+	}
+	pkcs := append(vhBytes("pkcs7", 2), make([]byte, 38)...)
+	var exsig []byte
+	if vhBool("extended-digest-supplied") {
+		exsig = append(vhBytes("extended-digest", 2), make([]byte, 30)...)
+	}
+	vhAssert(InsertMSISignature(w, pkcs, exsig) == nil, "signature-inserted")
+	vhAssert(w.Close() == nil, "container-closed")
+	after, err := comdoc.ReadPath(path)
+	vhAssert(err == nil, "signed-container-opens")
+	if err != nil {
+		return
+	}
+	files, err := after.ListDir(nil)
+	vhAssert(err == nil, "directory-lists")
+	got := map[string][]byte{}
+	for _, e := range files {
+		r, err := after.ReadStream(e)
+		if err == nil {
+			got[e.Name()], _ = io.ReadAll(r)
+		}
+	}
+	vhAssert(bytes.Equal(got["P"], p.data) && bytes.Equal(got["Q"], q.data), "payload-streams-unchanged")
+	vhAssert(bytes.Equal(got[msiDigitalSignature], pkcs), "signature-stream-is-the-blob")
+	ex, hasEx := got[msiDigitalSignatureEx]
+	vhAssert(hasEx == (exsig != nil) && (exsig == nil || bytes.Equal(ex, exsig)), "extended-stream-present-iff-supplied")
+	vhAssert(len(got) == 3+map[bool]int{false: 0, true: 1}[exsig != nil], "no-other-stream-appears")
+	imprint1, _, err := DigestMSI(after, crypto.SHA256, false)
+	vhAssert(err == nil && bytes.Equal(imprint0, imprint1), "imprint-unchanged-by-signing")
+	vhReach("inserted") // vh:require inserted
+}
+
+func VH_C18_MsiInsertSignature() { VH_C08_MsiInsertSignature() }
